@@ -96,6 +96,31 @@ def run_alloc(c):
         return dict(nt=False, cls=["no-refinable-cell"])
     cells = [X.of_frame(r) for r in refinable]
     shapes = {m["name"]: module_rects(m, unit) for m in c["modules"]}
+    moved = False
+    if c.get("moves"):
+        # the placement tools move hard modules by assigning a new centre and calling recenter_rectangles(), which
+        # shifts the rectangles IN PLACE; optionally an allocation was already computed before the move
+        from frame.geometry.geometry import Point
+        if c.get("alloc_before_move"):
+            try:
+                create_initial_allocation(die, False)
+            except Exception:
+                pass
+        for name, (dx, dy) in c["moves"].items():
+            mod = nl.get_module(name)
+            if not (mod.is_hard and not mod.is_fixed):
+                continue
+            rs = shapes[name]
+            A = sum(X.area(r) for r in rs)
+            cx = sum(X.area(r) * (r[0] + r[2]) / 2 for r in rs) / A
+            cy = sum(X.area(r) * (r[1] + r[3]) / 2 for r in rs) / A
+            nx, ny = cx + dx * u, cy + dy * u
+            if min(r[0] + dx * u for r in rs) < 0 or min(r[1] + dy * u for r in rs) < 0:
+                continue
+            mod.center = Point(float(nx), float(ny))
+            mod.recenter_rectangles()
+            shapes[name] = [X.of_frame(r) for r in mod.rectangles]
+            moved = True
     # the domain: every movable module overlaps some refinable cell
     for name, rs in shapes.items():
         if sum((X.inter_area(cell, r) for cell in cells for r in rs), Fr(0)) < u * u / 16:
@@ -184,6 +209,8 @@ def run_alloc(c):
         cls.append("square-from-centre")
     if any(m["kind"] == "hard" for m in c["modules"]):
         cls.append("hard-module")
+    if moved:
+        cls.append("hard-module-recentred-in-place")
     whole = (Fr(0), Fr(0), W, H)
     if any(not X.inside(r, whole) for rs in shapes.values() for r in rs):
         cls.append("sticks-out")
@@ -233,10 +260,12 @@ def case_s(draw):
             m["rects"] = [list(r) for r in rs]
             m["area"] = sum((r[2] - r[0]) * (r[3] - r[1]) for r in rs)
         mods.append(m)
-    return dict(die=dc, refine=ref, modules=mods, include_zero=draw(st.booleans()), fixed_last=draw(st.booleans()))
+    moves = {m["name"]: [draw(_i(-3, 3)), draw(_i(-3, 3))] for m in mods if m["kind"] == "hard" and draw(st.booleans())}
+    return dict(die=dc, refine=ref, modules=mods, include_zero=draw(st.booleans()), fixed_last=draw(st.booleans()),
+                moves=moves, alloc_before_move=draw(st.booleans()))
 
 
 def subchecks():
     return [Sub("designs", run_alloc, strategy=case_s(), n_quick=5000, n_thorough=120000,
                 required=("with-fixed", "refined-split", "refined-grid", "include-zero", "square-from-centre", "hard-module",
-                          "sticks-out", "overlaps-fixed-cell", "covers-a-cell-completely", "tiny-die"))]
+                          "sticks-out", "overlaps-fixed-cell", "covers-a-cell-completely", "tiny-die", "hard-module-recentred-in-place"))]
